@@ -43,11 +43,41 @@ def find_sites(fi, it):
     return out
 
 
-def rule_steps(ctx, fi, it, rule_acc="C08.1", rule_site="C08.2", dop=None):
+def find_dop(it):
+    """the linear (dispersion) operator by its role: the first top-level value that is polynomial in beta_2 and beta_3.
+    -> (value, statement, variable name)"""
+    for f, stmt, name, val, conds, depth in it.assign_log:
+        if depth == 0 and isinstance(val, Form):
+            syms = {a[1] for a in val.atoms() if a[0] == "sym"}
+            if "beta_2" in syms and "beta_3" in syms:
+                return val, stmt, name
+    return None, None, None
+
+
+def step_variable(fi, it, dop=None):
+    """name of the step-size variable by its role: the value s for which a propagation site is the symmetric split step of size s"""
     if dop is None:
-        for f, stmt, name, val, conds, depth in it.assign_log:
-            if depth == 0 and name == "D_op":
-                dop = val
+        dop = find_dop(it)[0]
+    if dop is None:
+        return None
+    gamma = S("gamma")
+    for stmt, fvar, val, env in find_sites(fi, it):
+        A = env[fvar]
+        for nm, v in env.items():
+            if nm == fvar or not isinstance(v, Form) or v.const_value() is not None:
+                continue
+            try:
+                if split_step(A, v, dop, gamma) == val:
+                    return nm
+            except Exception:
+                continue
+    return None
+
+
+def rule_steps(ctx, fi, it, rule_acc="C08.1", rule_site="C08.2", dop=None):
+    dop_name = None
+    if dop is None:
+        dop, _, dop_name = find_dop(it)
     sites = find_sites(fi, it)
     if len(sites) < 1 or dop is None:
         ctx.unknown(rule_acc, fi, fi.node, "FIBER propagation sites", "no split-step application found")
@@ -94,7 +124,7 @@ def rule_steps(ctx, fi, it, rule_acc="C08.1", rule_site="C08.2", dop=None):
         sv = stepvar[stmt]
         if sv is None:
             # fall back to the variable multiplying D_op in the most recent exp_L (keeps accounting decidable)
-            sv = _step_from_ast(fi, stmt)
+            sv = _step_from_ast(fi, stmt, dop_name or find_dop(it)[2])
         ghost[node.id] = sv if sv is not None else "?"
     try:
         st = karr.analyse(g, names, ghost)
@@ -124,16 +154,25 @@ def rule_steps(ctx, fi, it, rule_acc="C08.1", rule_site="C08.2", dop=None):
         ctx.unknown(rule_acc, fi, fi.node, "FIBER returns", "no return statement")
 
 
-def _step_from_ast(fi, stmt):
+def _step_from_ast(fi, stmt, dop_name="D_op"):
+    """the variable multiplying the linear operator in the most recent exp(D_op * s) before `stmt`"""
     prev = None
     for n in body_nodes(fi):
-        if isinstance(n, ast.Assign) and n.lineno < stmt.lineno and isinstance(n.targets[0], ast.Name) and n.targets[0].id == "exp_L":
-            if prev is None or n.lineno > prev.lineno:
-                prev = n
+        if isinstance(n, ast.Assign) and n.lineno < stmt.lineno and isinstance(n.targets[0], ast.Name):
+            if any(isinstance(x, ast.BinOp) and isinstance(x.op, ast.Mult) and any(isinstance(y, ast.Name) and y.id == dop_name for y in (x.left, x.right))
+                   for x in ast.walk(n.value)):
+                if prev is None or n.lineno > prev.lineno:
+                    prev = n
     if prev is None:
         return None
-    names = [x.id for x in ast.walk(prev.value) if isinstance(x, ast.Name) and x.id not in ("np", "D_op")]
-    return names[0] if names else None
+    for x in ast.walk(prev.value):
+        if isinstance(x, ast.BinOp) and isinstance(x.op, ast.Mult):
+            pair = (x.left, x.right)
+            if any(isinstance(y, ast.Name) and y.id == dop_name for y in pair):
+                other = [y for y in pair if not (isinstance(y, ast.Name) and y.id == dop_name)]
+                if other and isinstance(other[0], ast.Name):
+                    return other[0].id
+    return None
 
 
 def rule_rank_guard(ctx, fi):
@@ -200,6 +239,10 @@ def rule_shortcut(ctx, fi, it):
         ctx.unknown("C08.4", fi, fi.node, "FIBER single-step shortcut", "parameters alpha, beta_2, beta_3, gamma not found")
         return
     length = fi.params[1]
+    hname = step_variable(fi, it)
+    if hname is None:
+        ctx.unknown("C08.4", fi, fi.node, "FIBER single-step shortcut", "step-size variable not identified (no site is the symmetric split step of one variable)")
+        return
     first_stmt = None
     bad, undecided, taken_ok = [], [], 0
     for combo in itertools.product((0, 7), repeat=4):
@@ -208,7 +251,7 @@ def rule_shortcut(ctx, fi, it):
         sub.run(fi)
         h0 = None
         for f, stmt, name, val, conds, depth in sub.assign_log:
-            if depth == 0 and name == "h":
+            if depth == 0 and name == hname:
                 h0, first_stmt = val, stmt
                 break
         if h0 is None:
@@ -239,7 +282,7 @@ def rule_shortcut(ctx, fi, it):
         pv["gamma"] = Form.num(0)
         sub = Interp(pkg, assumptions={"show_progress": False, "input.noise": "none"}, param_classes={"input": "optical_signal"}, param_values=pv)
         sub.run(fi)
-        h0 = next((val for f, stmt, name, val, conds, depth in sub.assign_log if depth == 0 and name == "h"), None)
+        h0 = next((val for f, stmt, name, val, conds, depth in sub.assign_log if depth == 0 and name == hname), None)
         if not (isinstance(h0, Form) and h0 == S(length)):
             miss.append(combo)
     ctx.check("C08.4", not miss, fi, first_stmt, "FIBER: gamma == 0 takes the single full-length step", "linear case handled in one exact step",
